@@ -4,9 +4,14 @@
     check; (iii) Generated/WebPages.v, Generated/WebSinks.v are regenerated from /repo/web by the translator
     (harness/overlay/web/zz_verif_c36gen_test.go) at every run of the check.
     PARTIAL: the property's carrier is html/template. Its contextual analysis (which escaper goes where) is read off
-    the escaped parse trees, not modelled; that its escapers implement [esc] is validated by the correspondence. *)
+    the escaped parse trees, not modelled; that its escapers implement [esc] is validated by the correspondence.
+    (iv) Model/WebResp.v: the response classes — every route and response mode of web.Server (Generated/WebRoutes.v: the mux
+    registrations and the response sinks of their handlers, go/ast + go/types; net/http's sniffSignatures from $GOROOT),
+    the Content-Type that ends up on the wire (net/http sniffs when the handler sets none) and the user agent (an explicit
+    assumption, [browser_markup]). *)
 From Coq Require Import String.
 From ZV Require Import Lib.Base Model.Web Proofs.Web Generated.WebPages Generated.WebSinks.
+From ZV Require Import Model.WebResp Proofs.WebResp Generated.WebRoutes.
 Open Scope N_scope.
 
 (** (i-a) For every line match whose fragments are sorted, non-overlapping and inside the line — whatever lies in the
@@ -84,6 +89,107 @@ Theorem C36_sinks_are_plain_partial :
 Proof. vm_compute. repeat split; reflexivity. Qed.
 Print Assumptions C36_sinks_are_plain_partial.
 
+
+(* ================================================================== (iv) response classes *)
+
+(** (iv-a) response-class theorem. A response whose handler sets a text/plain Content-Type and nosniff is never taken
+    for markup by the user agent of [browser_markup] (the BROWSER ASSUMPTION B1–B4 of Model/WebResp.v) — for every body
+    and every table of sniffer signatures. *)
+Theorem C36_plain_text_response_never_markup : forall sigs ct body,
+  mt_of ct = str "text/plain" -> served_as_markup sigs (Some ct) true body = false.
+Proof. exact explicit_plain_nosniff_never_markup. Qed.
+Print Assumptions C36_plain_text_response_never_markup.
+
+(** (iv-b) … and it is false as soon as the Content-Type is left to net/http (even with nosniff, which only binds the
+    user agent): the server labels a body that starts with an html signature text/html. One hostile file per
+    html signature of net/http's table (lower-cased, terminated by '>'). *)
+Definition hostile_body (pat : bytes) : bytes := (str "  " ++ map lower pat ++ str "><script>alert(1)</script>")%list.
+Definition html_pats : list bytes :=
+  flat_map (fun s => match s with SHtml pat => [pat] | _ => [] end) sniff_sigs.
+Theorem C36_sniffed_response_refuted :
+  (exists body, served_as_markup sniff_sigs None true body = true /\
+                served_as_markup sniff_sigs (Some ct_text) true body = false) /\
+  (forall pat, In pat html_pats -> served_as_markup sniff_sigs None true (hostile_body pat) = true).
+Proof.
+  split.
+  - exists (str "<html><script>alert(1)</script>"). vm_compute. split; reflexivity.
+  - assert (H : forallb (fun pat => served_as_markup sniff_sigs None true (hostile_body pat)) html_pats = true)
+      by (vm_compute; reflexivity).
+    rewrite forallb_forall in H. exact H.
+Qed.
+Print Assumptions C36_sniffed_response_refuted.
+
+(** (iv-c) net/http's sniffer (the generated table) yields a markup type only for a body whose first non-whitespace
+    byte is '<': JSON documents, error texts … are never taken for markup even when nothing is declared. *)
+Theorem C36_sniffer_needs_lt : forall nosniff body,
+  Forall (fun b => b < 256) body -> first_nonws body <> Some 60 ->
+  markup_ct (detect sniff_sigs body) = false /\ served_as_markup sniff_sigs None nosniff body = false.
+Proof.
+  assert (H : forallb sig_markup_needs_lt sniff_sigs = true) by (vm_compute; reflexivity).
+  intros nosniff body Hb Hf. split.
+  - apply sniffer_needs_lt; assumption.
+  - apply undeclared_non_lt_never_markup; assumption.
+Qed.
+Print Assumptions C36_sniffer_needs_lt.
+
+(** (iv-d) every response mode of web.Server renders index / request text as text: the plain-text and JSON modes are
+    never taken for markup whatever the body; the page modes render a page of Generated/WebPages.v whose tag/attribute
+    skeleton does not depend on the data (ii-c) — for the slot-free robots page the very bytes do not depend on it.
+    PARTIAL: that the handlers implement exactly these modes is (iv-e) (static, over the source) and the correspondence
+    (dynamic, over real responses), not a proof about the Go code. *)
+Theorem C36_every_response_mode_partial : forall m,
+  match mode_class m with
+  | RPlainText | RJson => forall body, served_as_markup sniff_sigs (mode_ct m) (mode_nosniff m) body = false
+  | RHtmlTemplate =>
+      exists name p, mode_page m = Some name /\ In (name, p) pages /\
+        forall choices d d0, tags (fst (render p (choices, d))) = tags (fst (render p (choices, d0)))
+  | RStatic =>
+      exists name p, mode_page m = Some name /\ In (name, p) pages /\
+        forall choices d d0, fst (render p (choices, d)) = fst (render p (choices, d0))
+  | REmpty => mode_ct m = None
+  | RUnknown => False
+  end.
+Proof.
+  assert (Hp : forall name p, In (name, p) pages ->
+               forall choices d d0, tags (fst (render p (choices, d))) = tags (fst (render p (choices, d0))))
+    by exact C36_pages_no_markup_partial.
+  assert (Hin : forall name, existsb (fun x => String.eqb (fst x) name) pages = true -> exists p, In (name, p) pages).
+  { intros name H. apply existsb_exists in H. destruct H as [[n p] [Hin Heq]]. simpl in Heq.
+    apply String.eqb_eq in Heq. subst n. exists p. exact Hin. }
+  intros m.
+  destruct m; cbn [mode_class];
+    try (intros body; apply data_modes_never_markup; cbn [mode_class]; auto; fail);
+    try reflexivity.
+  - destruct (Hin "results"%string) as [p Hi]; [vm_compute; reflexivity|]. exists "results"%string, p. split; [reflexivity | split; [exact Hi | apply (Hp _ _ Hi)]].
+  - destruct (Hin "repolist"%string) as [p Hi]; [vm_compute; reflexivity|]. exists "repolist"%string, p. split; [reflexivity | split; [exact Hi | apply (Hp _ _ Hi)]].
+  - destruct (Hin "search"%string) as [p Hi]; [vm_compute; reflexivity|]. exists "search"%string, p. split; [reflexivity | split; [exact Hi | apply (Hp _ _ Hi)]].
+  - destruct (Hin "about"%string) as [p Hi]; [vm_compute; reflexivity|]. exists "about"%string, p. split; [reflexivity | split; [exact Hi | apply (Hp _ _ Hi)]].
+  - exists "robots"%string, page_robots. split; [reflexivity | split].
+    + vm_compute. auto 10.
+    + intros choices d d0. apply static_render. vm_compute. reflexivity.
+  - destruct (Hin "print"%string) as [p Hi]; [vm_compute; reflexivity|]. exists "print"%string, p. split; [reflexivity | split; [exact Hi | apply (Hp _ _ Hi)]].
+Qed.
+Print Assumptions C36_every_response_mode_partial.
+
+(** (iv-e) routes_classified (generated with go/ast + go/types at every run): every mux registration of web.NewMux
+    (incl. the JSON API's sub-mux mounted under /api/) has declared response modes; every response sink reachable from
+    its handler — w.Write / http.Error / json.NewEncoder(w) / anything else that gets the ResponseWriter — is one of these
+    modes with the same body source (html/template output of a known page, data, literal) and the same headers set on every
+    path to it; a data body written with the Content-Type left to sniffing has NO class. Conversely every declared mode
+    is found in the source. A new or changed route / response without a class breaks this obligation. *)
+Definition page_names : list string := map fst pages.
+Definition static_names : list string := map fst (filter (fun x => page_static (snd x)) pages).
+Definition html_sig_count : nat := length html_pats.
+Theorem C36_routes_classified_partial :
+  forallb route_declared routes = true /\
+  forallb (sink_classified page_names static_names) resp_sinks = true /\
+  forallb (mode_in_source page_names static_names resp_sinks)
+          (filter (fun d => existsb (fun r => String.eqb (rt_pat r) (fst d)) routes) declared) = true /\
+  forallb sig_markup_needs_lt sniff_sigs = true /\
+  (5 <=? length routes)%nat = true /\ (10 <=? length resp_sinks)%nat = true /\ (10 <=? html_sig_count)%nat = true.
+Proof. vm_compute. repeat split; reflexivity. Qed.
+Print Assumptions C36_routes_classified_partial.
+
 (* ---- non-vacuity *)
 Example C36_nonvacuous_fragments :
   let m := {| lm_line := str "a <b> c"; lm_tail := str "NEXT LINE"; lm_num := 1; lm_before := []; lm_after := [];
@@ -117,4 +223,31 @@ Example C36_nonvacuous_flow_rejects :
   page_ok (PSeq (PLit (str "<input value=")) (PSeq (PSlot KHtml) (PLit (str ">")))) = false /\
   page_ok (PSeq (PLit (str "<input value=")) (PSeq (PSlot KNospace) (PLit (str ">")))) = true /\
   kind_plain TSafeContent = false /\ kind_plain TInterface = false.
+Proof. vm_compute. repeat split; reflexivity. Qed.
+
+Example C36_nonvacuous_response_classes :
+  (* the sniffer: case-insensitive signature, leading white space, terminator needed; xml; text; binary *)
+  detect sniff_sigs (str "  <ScRiPt>alert(1)</ScRiPt>") = ct_html /\
+  detect sniff_sigs (str "<scriptx>") = ct_text /\
+  detect sniff_sigs (str "<?xml version=""1.0""?>") = str "text/xml; charset=utf-8" /\
+  detect sniff_sigs (str "package main") = ct_text /\
+  detect sniff_sigs [0; 1; 2] = ct_octet /\
+  (* the raw view as it is: explicit text/plain + nosniff; as it must not be: left to sniffing *)
+  served_as_markup sniff_sigs (mode_ct MPrintRaw) (mode_nosniff MPrintRaw) (str "<html><script>alert(1)</script>") = false /\
+  served_as_markup sniff_sigs None true (str "<html><script>alert(1)</script>") = true /\
+  (* a data sink without content type has no class; with text/plain but without nosniff neither *)
+  sink_class page_names static_names
+    {| rs_route := "/print"; rs_func := "servePrintErr"; rs_kind := KWrite (BData "f.Content");
+       rs_hdrs := [("Set", "X-Content-Type-Options", "nosniff")]%string |} = RUnknown /\
+  sink_class page_names static_names
+    {| rs_route := "/print"; rs_func := "servePrintErr"; rs_kind := KWrite (BData "f.Content");
+       rs_hdrs := [("Set", "Content-Type", "text/plain; charset=utf-8")]%string |} = RUnknown /\
+  sink_class page_names static_names
+    {| rs_route := "/print"; rs_func := "servePrintErr"; rs_kind := KWrite (BData "f.Content");
+       rs_hdrs := [("Set", "Content-Type", "text/plain; charset=utf-8"); ("Set", "X-Content-Type-Options", "nosniff")]%string |} = RPlainText /\
+  (* an undeclared route, a template that is not a generated page *)
+  route_declared {| rt_pat := "/debug"; rt_handler := "serveDebug"; rt_guard := "" |} = false /\
+  sink_class page_names static_names
+    {| rs_route := "/"; rs_func := "f"; rs_kind := KWrite (BTemplate ["?s.other"]); rs_hdrs := [] |} = RUnknown /\
+  static_names = ["robots"]%string.
 Proof. vm_compute. repeat split; reflexivity. Qed.
